@@ -82,7 +82,8 @@ func main() {
 		}
 		if *tier != "thorough" {
 			// quick tier: the factors are cycled by index, so that neighbouring factors meet in all their pairs within the 64 cases
-			c = cls{2 + (i/11)%2, 5 + i%11, i % 4, (i / 4) % 4, (i/2)%2 == 0}
+			// (the operator-constant form cycles slower than both algorithm identities: every (enc, int, OP-only) triple within 32 cases)
+			c = cls{2 + (i/11)%2, 5 + i%11, i % 4, (i / 4) % 4, (i/16)%2 == 0}
 		}
 		k, op, rnd := ev.Corner16(r), ev.Corner16(r), ev.Corner16(r)
 		if i%4 == 3 && prevOp != nil {
@@ -122,6 +123,9 @@ func main() {
 		}
 		if i%4 == 1 { // upper-case hex in the configuration
 			kh = fmt.Sprintf("%X", k)
+		}
+		if i%8 == 5 && opch != "" {
+			oph = "" // OPc alone: the OP key of the configuration left empty
 		}
 		if i%4 == 2 {
 			oph = fmt.Sprintf("%X", op)
